@@ -196,8 +196,11 @@ impl Function {
         self.doc = Some(doc.into());
         self
     }
+    /// A function that gets no wrapper: its name starts with `_`. A forwarder to a base function is
+    /// never internal (its name may start with the name of a base field, `_base_f`); internal
+    /// functions of a base are not forwarded in the first place.
     pub fn is_internal(&self) -> bool {
-        self.name.starts_with("_")
+        self.name.starts_with("_") && !self.body.is_field()
     }
     pub fn is_public(&self) -> bool {
         matches!(self.visibility, Visibility::Public)
